@@ -5,6 +5,65 @@ from lib.gen import P, le, rand_fr
 FB = [0, 1, 2, P - 1, P - 2, (P - 1) // 2, 2**64 - 1, 2**64, 2**128, 2**253, 2**254 - 1 - P]
 
 
+JKEYS = ["identity_secret", "user_message_limit", "message_id", "path_elements", "identity_path_index", "x", "external_nullifier"]
+
+
+def json_from_line(rng, s, lim, mid, path, idx, x, e, mutate):
+    """a `json_from` line: the object `rln_witness_to_json` would build for these values, field by field, optionally with ONE
+    deviation an independent producer could make (value >= p in a field, element that is not a byte, short / long array,
+    wrong declared count, missing key, key of the decimal export, unknown key, string instead of array, null)"""
+    f = {"identity_secret": list(le(s, 32)), "user_message_limit": list(le(lim, 32)), "message_id": list(le(mid, 32)),
+         "path_elements": list(le(len(path), 8) + b"".join(le(v, 32) for v in path)), "identity_path_index": list(idx),
+         "x": list(le(x, 32)), "external_nullifier": list(le(e, 32))}
+    toks = {k: "n:" + (",".join(str(b) for b in v) or "-") for k, v in f.items()}
+    if mutate:
+        k = rng.choice(JKEYS)
+        m = rng.randrange(14)
+        v = list(f[k])
+        if m == 0:
+            del toks[k]                                                      # missing key
+        elif m == 1:
+            toks[k] = "o"                                                    # null
+        elif m == 2:
+            toks[k] = "s:" + b"12345".hex()                                  # a decimal string where bytes are expected
+        elif m == 3:
+            toks[k] = "t:" + ",".join(str(b).encode().hex() for b in (v or [1]))   # array of strings
+        elif m == 4 and v:
+            v[rng.randrange(len(v))] = rng.choice([256, 257, 65535, 2**32, 2**64 - 1])   # not a byte
+            toks[k] = "n:" + ",".join(str(b) for b in v)
+        elif m == 5:
+            v = v + [rng.getrandbits(8) for _ in range(rng.choice([1, 2, 31, 32, 33]))]   # trailing bytes inside a field
+            toks[k] = "n:" + ",".join(str(b) for b in v)
+        elif m == 6 and v:
+            v = v[:rng.randrange(len(v))]                                    # short array
+            toks[k] = "n:" + (",".join(str(b) for b in v) or "-")
+        elif m == 7 and k not in ("path_elements", "identity_path_index"):
+            big = rng.choice([P, P + 1, P + rng.getrandbits(200), 2**256 - 1, 2**254, 2**255])   # not below the modulus
+            toks[k] = "n:" + ",".join(str(b) for b in le(big, 32))
+        elif m == 8:
+            n = len(path)
+            cnt = rng.choice([n + 1, max(n - 1, 0), 0, 2**32, 2**63, 2**64 - 1])              # wrong declared count
+            toks["path_elements"] = "n:" + ",".join(str(b) for b in list(le(cnt, 8)) + f["path_elements"][8:])
+        elif m == 9 and path:
+            i = rng.randrange(len(path))
+            pe = list(f["path_elements"])
+            pe[8 + 32 * i: 8 + 32 * (i + 1)] = list(le(rng.choice([P, P + 5, 2**256 - 1]), 32))  # one element not below the modulus
+            toks["path_elements"] = "n:" + ",".join(str(b) for b in pe)
+        elif m == 10:
+            toks["identitySecret"] = "s:" + str(s).encode().hex()            # a key of the decimal export next to the regular ones
+        elif m == 11:
+            toks["zz_unknown"] = rng.choice(["o", "n:1,2,3", "s:" + b"abc".hex()])
+        elif m == 12:
+            camel = {"identity_secret": "identitySecret", "user_message_limit": "userMessageLimit", "message_id": "messageId",
+                     "path_elements": "pathElements", "identity_path_index": "identityPathIndex", "x": "X", "external_nullifier": "externalNullifier"}
+            toks[camel[k]] = toks.pop(k)                                     # the decimal export's spelling of a key
+        else:
+            toks["identity_path_index"] = "n:" + (",".join(str(rng.choice([0, 1, 2, 255])) for _ in range(rng.randrange(0, 25))) or "-")
+    items = list(toks.items())
+    rng.shuffle(items)                                                       # a map: the order of insertion must not matter
+    return "json_from " + " ".join(f"{k}={v}" for k, v in items)
+
+
 def check(run):
     run.level = "proof"
     from checks import _proto_theorems
@@ -53,6 +112,9 @@ def check(run):
         enc = rlngen.witness_bytes(s, lim, mid, path, idx, x, e)
         seqs.append([f"de_witness {enc.hex()}"])
         seqs.append([f"json_rt {enc.hex()}"])
+        seqs.append([f"json_text {enc.hex()}"])                # the JSON text itself against `Json.render (witnessToJson w)` of the model
+        seqs.append([f"bigint_text {enc.hex()}"])              # the circom input file against `witnessToBigintJson`
+        seqs.append(json_from_line(rng, s, lim, mid, path, idx, x, e, mutate=(k % 3 != 0)))
         seqs.append([f"rln_wit_bigint {enc.hex()}"])           # the RLN-level exports of the same witness (JSON entry points)
         seqs.append([f"rln_wit_json {enc.hex()}"])
         r = rng.random()
@@ -82,7 +144,7 @@ def check(run):
         seqs.append([f"prep_verify {bytes(rng.getrandbits(8) for _ in range(288)).hex()} {rlngen.hx(sig)}"])
         seqs.append(["id_pair_de " + b"".join(le(v, 32) for v in vals[:2]).hex()])
         seqs.append(["id_tuple_de " + b"".join(le(v, 32) for v in vals[:4]).hex()])
-    run.rules.append("each codec in both directions against an encoder/decoder written from the documented layouts: field elements (boundary + random), vectors of length 0..n and long generated vectors (65535 / 65536 / 65537 / 70001 elements; thorough up to 2^20+1), usize lists with 2^32/2^63/2^64-1 entries, witnesses with path lengths 0..21 and boundary limits/ids, with missing / trailing bytes and inconsistent length prefixes, proof values, requests, identity tuples (seeded and unseeded, RLN and FFI entry points, checked through the relations their fields satisfy in the documented order); distinct = distinct op line")
+    run.rules.append("each codec in both directions against an encoder/decoder written from the documented layouts: field elements (boundary + random), vectors of length 0..n and long generated vectors (65535 / 65536 / 65537 / 70001 elements; thorough up to 2^20+1), usize lists with 2^32/2^63/2^64-1 entries, witnesses with path lengths 0..21 and boundary limits/ids, with missing / trailing bytes and inconsistent length prefixes, proof values, requests, the JSON witness codec (exact JSON text of both exports against the model's rendering; rln_witness_from_json on objects with one deviation each: missing / unknown / camelCase key, null, string, element that is not a byte, short and over-long field, value not below the modulus, wrong declared count), identity tuples (seeded and unseeded, RLN and FFI entry points, checked through the relations their fields satisfy in the documented order); distinct = distinct op line")
     # vectors longer than any internal chunking threshold, with lengths that are NOT multiples of small powers of two
     for n in ([0, 1, 65535, 65536, 65537, 70001] if run.tier == "quick" else [0, 1, 2, 1000, 16383, 16384, 16385, 65535, 65536, 65537, 70001, 131071, 131073, 262147, 1048577]):
         seqs.append([f"bigvec fr {hex(n)} {hex(rng.getrandbits(40))}"])
